@@ -356,6 +356,124 @@ func (c *r1ctx) goParam(v *sx, t types.Type, pkg string) string {
 	return "nil"
 }
 
+const r1MaxElems = 24
+
+// structFieldTerm: the SMT term of field i of the struct a pointer parameter points to, in the entry state.
+func structFieldTerm(so *Sorts, n *types.Named, stt *types.Struct, i int, sym string) string {
+	return "(select " + fieldComp(so, n, stt, i) + "_0 " + sym + ")"
+}
+
+func sliceElemTerm(comp, field string, k int) string {
+	return fmt.Sprintf("(select (select %s_0 (s.ref %s)) (+ (s.off %s) %d))", comp, field, field, k)
+}
+
+// structParamTerms: get-value terms that let the replay rebuild pointer-to-struct parameters (receivers such as *Scanner,
+// *Parser) of the function's own package: every field, and the first r1MaxElems cells of slice-typed fields.
+func (e *Engine) structParamTerms(fe *FuncEnc) []string {
+	var out []string
+	if fe == nil || fe.fn == nil {
+		return nil
+	}
+	for idx, in := range fe.inputs {
+		if idx >= len(fe.fn.Params) {
+			break
+		}
+		n, stt, ok := fe.structOfPointer(fe.fn.Params[idx].Type())
+		if !ok || n.Obj().Pkg() == nil || fe.fn.Pkg == nil || n.Obj().Pkg() != fe.fn.Pkg.Pkg || n.Obj().Name() == "Interpreter" {
+			continue
+		}
+		for i := 0; i < stt.NumFields(); i++ {
+			comp := fieldComp(e.sorts, n, stt, i)
+			if !fe.declared[comp+"_0"] {
+				continue
+			}
+			ft := structFieldTerm(e.sorts, n, stt, i, in.Sym)
+			out = append(out, ft)
+			if sl, isSl := stt.Field(i).Type().Underlying().(*types.Slice); isSl {
+				ec := "E_" + e.sorts.elemKey(sl.Elem())
+				if fe.declared[ec+"_0"] {
+					for k := 0; k < r1MaxElems; k++ {
+						out = append(out, sliceElemTerm(ec, ft, k))
+					}
+				}
+			}
+		}
+	}
+	return out
+}
+
+func canonTerm(t string) string {
+	f := parseSx(t)
+	if len(f) == 0 {
+		return t
+	}
+	return f[0].String()
+}
+
+// goStructPtr renders &T{...} for a pointer parameter from the model; fields the model leaves out of the query (never read
+// by the function) keep their zero value.
+func (c *r1ctx) goStructPtr(fe *FuncEnc, sym string, t types.Type, pkg string, vals map[string]*sx) string {
+	n, stt, ok := fe.structOfPointer(t)
+	if !ok {
+		c.ok = false
+		return "nil"
+	}
+	if pv, has := vals[sym]; has {
+		if r, isInt := intOfSx(pv); isInt && r == 0 {
+			return "nil"
+		}
+	}
+	var fields []string
+	for i := 0; i < stt.NumFields(); i++ {
+		ft := structFieldTerm(c.e.sorts, n, stt, i, sym)
+		v := vals[canonTerm(ft)]
+		if v == nil {
+			continue
+		}
+		f := stt.Field(i)
+		switch u := f.Type().Underlying().(type) {
+		case *types.Slice:
+			if v.head() != "mkSlice" || len(v.list) != 5 {
+				c.ok = false
+				return "nil"
+			}
+			ln, _ := intOfSx(v.list[3])
+			cp, _ := intOfSx(v.list[4])
+			if ln < 0 || ln > r1MaxElems || cp < ln {
+				c.ok = false
+				return "nil"
+			}
+			ec := "E_" + c.e.sorts.elemKey(u.Elem())
+			var elems []string
+			for k := 0; k < int(ln); k++ {
+				ev := vals[canonTerm(sliceElemTerm(ec, ft, k))]
+				if ev == nil {
+					c.ok = false
+					return "nil"
+				}
+				elems = append(elems, c.goParam(ev, u.Elem(), pkg))
+			}
+			ts := types.TypeString(f.Type(), func(p *types.Package) string {
+				if p.Name() == pkg {
+					return ""
+				}
+				return p.Name()
+			})
+			fields = append(fields, fmt.Sprintf("%s: %s{%s}", f.Name(), ts, strings.Join(elems, ", ")))
+		case *types.Basic, *types.Interface, *types.Struct:
+			fields = append(fields, fmt.Sprintf("%s: %s", f.Name(), c.goParam(v, f.Type(), pkg)))
+		default:
+			// pointers, maps: only the nil value can be rendered
+			if r, isInt := intOfSx(v); isInt && r == 0 {
+				continue
+			}
+			c.ok = false
+			return "nil"
+		}
+	}
+	return "&" + n.Obj().Name() + "{" + strings.Join(fields, ", ") + "}"
+}
+
 // goArgList renders a []interface{} parameter using the E_Val heap of the model for its cells.
 func (c *r1ctx) goArgList(v *sx, pkg string) string {
 	if v.head() != "mkSlice" || len(v.list) != 5 {
@@ -481,7 +599,12 @@ func (e *Engine) replayR1(o *Obl, rf *ReplayFile) bool {
 			return false
 		}
 		p := fn.Params[idx]
-		expr := ctx.goParam(v, p.Type(), pkg)
+		var expr string
+		if n, _, isPS := fe.structOfPointer(p.Type()); isPS && n.Obj().Pkg() == fn.Pkg.Pkg && n.Obj().Name() != "Interpreter" {
+			expr = ctx.goStructPtr(fe, in.Sym, p.Type(), pkg, vals)
+		} else {
+			expr = ctx.goParam(v, p.Type(), pkg)
+		}
 		if idx == 0 && fn.Signature.Recv() != nil {
 			recvCall = "(" + expr + ")."
 			continue
